@@ -1056,17 +1056,20 @@ coap_oscore_decrypt_pdu(coap_session_t *session,
      * Requires in COSE object as appropriate
      *   partial_iv (as received)
      */
-    if (rcp_ctx->initial_state == 0 &&
-        !oscore_validate_sender_seq(rcp_ctx, cose)) {
-      coap_log_warn("OSCORE: Replayed or old message\n");
-      build_and_send_error_pdu(session,
-                               pdu,
-                               COAP_RESPONSE_CODE(401),
-                               "Replay detected",
-                               NULL,
-                               NULL,
-                               0);
-      goto error_no_ack;
+    if (rcp_ctx->initial_state == 0) {
+      if (!oscore_validate_sender_seq(rcp_ctx, cose)) {
+        coap_log_warn("OSCORE: Replayed or old message\n");
+        build_and_send_error_pdu(session,
+                                 pdu,
+                                 COAP_RESPONSE_CODE(401),
+                                 "Replay detected",
+                                 NULL,
+                                 NULL,
+                                 0);
+        goto error_no_ack;
+      }
+      /* The replay window is now updated, undo that unless the request authenticates */
+      seq_validated = 1;
     }
   } else { /* !coap_request */
     /*
@@ -1261,7 +1264,7 @@ coap_oscore_decrypt_pdu(coap_session_t *session,
           coap_log_warn("OSCORE: Replayed or old message\n");
           goto error;
         }
-        /* The replay window is now updated, undo that if decryption fails */
+        /* The replay window is now updated, undo that unless the response authenticates */
         seq_validated = 1;
       }
       last_seq =
@@ -1402,11 +1405,8 @@ coap_oscore_decrypt_pdu(coap_session_t *session,
                                NULL,
                                NULL,
                                0);
-      oscore_roll_back_seq(rcp_ctx);
       goto error_no_ack;
     } else {
-      if (seq_validated)
-        oscore_roll_back_seq(rcp_ctx);
       coap_handle_event_lkd(session->context,
                             COAP_EVENT_OSCORE_DECRYPTION_FAILURE,
                             session);
@@ -1415,6 +1415,9 @@ coap_oscore_decrypt_pdu(coap_session_t *session,
   }
 
   assert((size_t)pltxt_size < pdu->alloc_size + pdu->max_hdr_size);
+
+  /* The message is authentic: the update of the replay window stands */
+  seq_validated = 0;
 
   /* Appendix B.2 Trap */
   if (session->b_2_step == COAP_OSCORE_B_2_STEP_2) {
@@ -1683,6 +1686,12 @@ coap_oscore_decrypt_pdu(coap_session_t *session,
 error:
   coap_send_ack_lkd(session, pdu);
 error_no_ack:
+  /*
+   * Whatever stopped the processing of a message that is not authenticated
+   * (decryption failure, no memory, ...), it must not stay in the replay window.
+   */
+  if (seq_validated)
+    oscore_roll_back_seq(rcp_ctx);
   if (association && association->is_observe == 0)
     oscore_delete_association(session, association);
   coap_delete_pdu(decrypt_pdu);
